@@ -1115,10 +1115,18 @@ func (a *nilAn) returnPaired(f *ssa.Function, ret *ssa.Return, ri int) bool {
 				if g == nil {
 					return
 				}
-				switch core.FuncName(g) {
-				case "(*errorHelper).addPointerError":
-					if len(c.Call.Args) >= 3 && c.Call.Args[1] == rv && errIsNonNilAt(c.Block(), c.Call.Args[2]) {
-						found = true
+				// a helper that records an error in the result it is given whenever its error argument is non-nil
+				// (computed, not assumed: a helper that only records under a further condition does not count)
+				if a.p.InSubject(g) {
+					for ri2, ra := range c.Call.Args {
+						if ra != rv {
+							continue
+						}
+						for ei, ea := range c.Call.Args {
+							if ea.Type().String() == "error" && errIsNonNilAt(c.Block(), ea) && addsErrorWhenNonNil(g, ri2, ei) {
+								found = true
+							}
+						}
 					}
 				}
 			})
@@ -1132,6 +1140,114 @@ func (a *nilAn) returnPaired(f *ssa.Function, ret *ssa.Return, ri int) bool {
 		}
 	}
 	return false
+}
+
+// addsErrorWhenNonNil: every return of g is either dominated by a call AddErrors(...) on parameter resIdx, or
+// can only be reached with parameter errIdx == nil.
+func addsErrorWhenNonNil(g *ssa.Function, resIdx, errIdx int) bool {
+	if resIdx >= len(g.Params) || errIdx >= len(g.Params) || len(g.Blocks) == 0 {
+		return false
+	}
+	res, errP := g.Params[resIdx], g.Params[errIdx]
+	var adds []*ssa.Call
+	core.EachInstr(g, func(i ssa.Instruction) {
+		c, ok := i.(*ssa.Call)
+		if !ok {
+			return
+		}
+		h := core.StaticCallee(c)
+		if h == nil || h.Name() != "AddErrors" || len(c.Call.Args) == 0 || c.Call.Args[0] != ssa.Value(res) {
+			return
+		}
+		adds = append(adds, c)
+	})
+	if len(adds) == 0 {
+		return false
+	}
+	nilAt := func(b *ssa.BasicBlock) bool {
+		for _, c := range core.CondsAt(b) {
+			bo, ok := c.Value.(*ssa.BinOp)
+			if !ok {
+				continue
+			}
+			var x ssa.Value
+			if core.IsNilConst(bo.Y) {
+				x = bo.X
+			} else if core.IsNilConst(bo.X) {
+				x = bo.Y
+			}
+			if x != ssa.Value(errP) {
+				continue
+			}
+			if (bo.Op == token.EQL && c.Sense) || (bo.Op == token.NEQ && !c.Sense) {
+				return true
+			}
+		}
+		return false
+	}
+	for _, b := range g.Blocks {
+		ret, ok := b.Instrs[len(b.Instrs)-1].(*ssa.Return)
+		if !ok {
+			continue
+		}
+		covered := false
+		for _, ad := range adds {
+			if core.InstrDominates(ad, ret) {
+				covered = true
+			}
+		}
+		if !covered {
+			// the join after `if err != nil { AddErrors }`: every predecessor path either added or had err == nil
+			covered = true
+			var visit func(x *ssa.BasicBlock, seen map[*ssa.BasicBlock]bool) bool
+			visit = func(x *ssa.BasicBlock, seen map[*ssa.BasicBlock]bool) bool {
+				if seen[x] {
+					return true
+				}
+				seen[x] = true
+				for _, ad := range adds {
+					if ad.Block() == x {
+						return true
+					}
+				}
+				if nilAt(x) {
+					return true
+				}
+				if len(x.Preds) == 0 {
+					return false // reached the entry without adding and without knowing err == nil
+				}
+				for _, pr := range x.Preds {
+					// the edge pr->x may establish err == nil
+					edgeNil := false
+					for _, c := range condsOnEdge(pr, x) {
+						if bo, ok := c.Value.(*ssa.BinOp); ok {
+							var y ssa.Value
+							if core.IsNilConst(bo.Y) {
+								y = bo.X
+							} else if core.IsNilConst(bo.X) {
+								y = bo.Y
+							}
+							if y == ssa.Value(errP) && ((bo.Op == token.EQL && c.Sense) || (bo.Op == token.NEQ && !c.Sense)) {
+								edgeNil = true
+							}
+						}
+					}
+					if edgeNil {
+						continue
+					}
+					if !visit(pr, seen) {
+						return false
+					}
+				}
+				return true
+			}
+			covered = visit(b, map[*ssa.BasicBlock]bool{})
+		}
+		if !covered {
+			return false
+		}
+	}
+	return true
 }
 
 // errIsNonNilAt: block b executes only when errV != nil.
